@@ -43,7 +43,7 @@ func TestTeardownWhileMediaFlows(t *testing.T) {
 	defer func() { close(stop); wg.Wait() }()
 	sp0, cp0 := w.s.LogCount("session panic"), w.s.LogCount("consume routine panic")
 	for i := 0; i < n; i++ {
-		c, err := rtspc.Dial(w.s.Addr(), ioBound)
+		c, err := retry("tcp dial", func() (*rtspc.Client, error) { return rtspc.Dial(w.s.Addr(), ioBound) })
 		if err != nil {
 			t.Fatalf("machinery: %v", err)
 		}
@@ -91,11 +91,17 @@ func TestWSPJoinRightAfterInit(t *testing.T) {
 	}
 	for i := 0; i < n; i++ {
 		url := w.s.WS(pathLive)
-		ctl, _, err := (&websocket.Dialer{Subprotocols: []string{"control"}, HandshakeTimeout: ioBound}).Dial(url, nil)
+		ctl, err := retry("ws dial", func() (*websocket.Conn, error) {
+			c, _, e := (&websocket.Dialer{Subprotocols: []string{"control"}, HandshakeTimeout: ioBound}).Dial(url, nil)
+			return c, e
+		})
 		if err != nil {
 			t.Fatalf("machinery: %v", err)
 		}
-		data, _, err := (&websocket.Dialer{Subprotocols: []string{"data"}, HandshakeTimeout: ioBound}).Dial(url, nil)
+		data, err := retry("ws dial", func() (*websocket.Conn, error) {
+			c, _, e := (&websocket.Dialer{Subprotocols: []string{"data"}, HandshakeTimeout: ioBound}).Dial(url, nil)
+			return c, e
+		})
 		if err != nil {
 			ctl.Close()
 			t.Fatalf("machinery: %v", err)
